@@ -341,6 +341,20 @@ func keySplitRule(c *Ctx, p *Prog, rule string, checkDirection bool) {
 }
 
 func runC06(c *Ctx) {
+	// "mark/MAC with epoch hour": which hour the server's reply and the client's verification are bound
+	// to is decided by C04's hour rules (R2 offsets, R5 store/use), which are part of the wire format
+	// too; imported as RH2/RH5
+	defer func() {
+		sub := NewCtx(c.P, c.Prop, c.Tier)
+		runC04(sub)
+		for _, o := range sub.Obls {
+			if !strings.HasPrefix(o.Key, c.Prop+".R5@") && !strings.HasPrefix(o.Key, c.Prop+".R2@") {
+				continue
+			}
+			o.Key = strings.Replace(o.Key, c.Prop+".R", c.Prop+".RH", 1)
+			c.Obls = append(c.Obls, o)
+		}
+	}()
 	p := c.P
 	spec, err := loadSpec("obfs4_wire.json")
 	if err != nil {
